@@ -320,17 +320,16 @@ def adj_scenarios(ctx):
     ]
     out += pinned
     # (2) exhaustive small: one regressor, 3 rows, every placement of values and non-finite markers
-    svals, tvals = [0, 1, 2, NAN], [0, 1, 3, PINF]
-    n_ex = 3
-    for s in itertools.product(svals, repeat=n_ex):
-        for t in itertools.product(tvals, repeat=n_ex):
-            if ctx.quick and rnd.random() < 0.75:
-                continue
-            out.append(dict(S=[[x] for x in s], obs=[1], TH=[list(t)], affs=[AFF1[rnd.randrange(len(AFF1))]]))
-    # two regressors, 3 rows over {0,1,nan} x theta {0,1,2}: every placement (thorough), a seeded part (quick)
+    #     (summaries over {0,1,2,nan} with observed 1, parameter over {0,3,inf} quick / {0,1,3,inf} thorough)
+    svals, tvals = [0, 1, 2, NAN], ([0, 3, PINF] if ctx.quick else [0, 1, 3, PINF])
+    for s in itertools.product(svals, repeat=3):
+        for t in itertools.product(tvals, repeat=3):
+            affs = [AFF1[rnd.randrange(len(AFF1))]] if (not ctx.quick or rnd.random() < 0.3) else []
+            out.append(dict(S=[[x] for x in s], obs=[1], TH=[list(t)], affs=affs))
+    # two regressors, 3 rows over {0,1,-inf} x parameter {0,2,nan}: a seeded part of all placements
     for s in itertools.product([0, 1, NINF], repeat=6):
         for t in itertools.product([0, 2, NAN], repeat=3):
-            if rnd.random() < (0.97 if ctx.quick else 0.75):
+            if rnd.random() < (0.98 if ctx.quick else 0.8):
                 continue
             out.append(dict(S=[list(s[0:2]), list(s[2:4]), list(s[4:6])], obs=[0, 1], TH=[list(t)],
                             affs=[AFF2[rnd.randrange(len(AFF2))]]))
@@ -409,8 +408,6 @@ def cmp_scenarios(ctx):
         for d2 in dseqs:
             for (n1, n2) in [(2, 3), (3, 3)]:
                 for pr in [None, (1, 2), (2, 1)]:
-                    if ctx.quick and rnd.random() < 0.5:
-                        continue
                     w = pr or (1, 1)
                     out.append(dict(ms=[dict(d=d1, nsim=n1, w=w[0]), dict(d=d2, nsim=n2, w=w[1])],
                                     scale=None if pr is None else rnd.choice([1, 4]), perms=[[2, 1]]))
@@ -560,7 +557,7 @@ def design_level(ctx):
         runs = [("k2", lin_cfg(2, 1, 1, 3, "SV_nan", "TV_pinf", LIN_INVS)),
                 ("k2n4", lin_cfg(2, 1, 4, 4, "SV_nan", "TV_pinf", LIN_INVS, obs="MCObsOne")),
                 ("k1p2", lin_cfg(1, 2, 1, 4, "SV_ninf", "TV_nan3", LIN_INVS)),
-                ("k1", lin_cfg(1, 1, 1, 6, "SV_wide", "TV_neg", LIN_INVS))]
+                ("k1", lin_cfg(1, 1, 1, 5, "SV_wide", "TV_neg", LIN_INVS))]
     for (name, cfg) in runs:
         ctx.tlc("MC_LinAdjust", "MC_LinAdjust_" + name, cfg_text=cfg, expect_actions=LIN_ACTS, workers=W, timeout=2400)
     # negative controls (must be refuted)
@@ -588,7 +585,7 @@ def design_level(ctx):
 
 def run(ctx):
     ctx.rule = ("real adjust_posterior / compare_models calls on elfi Sample objects built from integer data with inf/nan codes: "
-                "pinned shapes, every placement of values and non-finite markers for 3 rows (1 regressor; 2 regressors seeded part), "
+                "pinned shapes, every placement of values and non-finite markers for 3 rows and 1 regressor (a seeded part for 2 regressors), "
                 "seeded random samples (1-2 summaries, 2-9 rows, 1-3 parameters, requested parameter subsets/orders, rows equal to the "
                 "observed summaries, duplicates) each followed by calls on integer affine re-expressions (det +-1, +-2); model lists: "
                 "every pair of 1-2 discrepancies over {0,1,inf,nan}, seeded random lists of 2-4 models with ties, priors none/weights, "
